@@ -325,7 +325,8 @@ class Interp:
             # yields (so nothing the body reads changes under it), and an exception the body raises at any point counts
             # as raised.  The values yielded so far are the ghost list `yielded_` (a local: loop invariants may speak
             # about it, loops that yield list it in `LoopSpec.modifies`); list values are yielded BY VALUE (their
-            # content at the moment of the yield).  The result is that list; `return` inside the body ends it.
+            # content at the moment of the yield; the list object stays readable and may be yielded again, an in-place
+            # change after the yield is Unsupported: seqs.YieldedRef).  The result is that list; `return` inside the body ends it.
             # Only statement-level `yield v` / `yield from iterable` are modelled (the value sent in is unused).
             # Cross-check against CPython: spec/xcheck_cases.py x_generator (through its list() wrapper).
             frame.locals["yielded_"] = LRef(())
@@ -393,7 +394,7 @@ class Interp:
         out = f.locals["yielded_"]
         if isinstance(e, ast.Yield):
             v = st.force(self.eval(st, e.value, fr)) if e.value is not None else None
-            out.seq = Q.seq_append(out.seq, Q.row_value(v) if isinstance(v, LRef) else v)
+            out.seq = Q.seq_append(out.seq, Q.yielded_value(v))
             return
         it = self.iter_view(st, st.force(self.eval(st, e.value, fr)))
         out.seq = Q.seq_concat(out.seq, it.seq if isinstance(it, LRef) else it)
@@ -863,6 +864,12 @@ class Interp:
             if isinstance(cur, ModelObj):
                 if hasattr(cur, "py_havoc"):
                     cur.py_havoc(st)
+                continue
+            if n in mutated and n not in names and isinstance(cur, V.SOpt) and isinstance(cur.val, ModelObj) and hasattr(cur.val, "py_havoc"):
+                # an Optional[dict] parameter whose dict the loop changes IN PLACE (`d[k] = v` under `if d`): the object
+                # stays the one the caller holds, its content becomes arbitrary (rebinding the local to a fresh object would
+                # hide the change from a "not modified" clause about the argument)
+                cur.val.py_havoc(st)
                 continue
             if n in mutated and n not in names and isinstance(cur, LRef):
                 shp = spec.shapes.get(n) or S.shape_of(cur)
